@@ -223,4 +223,4 @@ func TestVerifReplay(t *testing.T) {
 
 
 if __name__ == '__main__':
-    main()
+    guarded_main('C02', main)
